@@ -3,7 +3,7 @@ import TunnoxModel.Spec.C10
 /-!
 Line protocol for C10.
 
-  st  <tail> rw <0|1> [tk <nil | n (<keyhex> <a|c>)*n> pre <m>] me <hex> ev <n> <event>*n ch <k> <size>*k rd <m> <size>*m [rv <n> <event>*n rr <k> <size>*k]
+  st  <tail> rw <0|1> [tk <nil | n (<keyhex> <a|c>)*n> pre <m>] me <hex> ev <n> <event>*n ch <k> <size>*k rd <m> <size>*m [rv <n> <event>*n rr <k> <size>*k | cut <k>]
         event:  w <len> <seed> | cw | cl | f <tidhex> <ty> <len> <seed>
       obs:  wr <k> (ok:<n>|closed|err:<n>)*k rd <j> (x:<n>|d:<hex>|eof|err:<kind>|fuel)*j rb <0|1> wb <0|1>
             (x:<n> = the next n bytes of the case's reference stream, see `refStream`)
@@ -93,6 +93,7 @@ structure StCase where
   chunks : List Nat
   reads : List Nat
   rv : Option (List Ev × List Nat) := none   -- reverse phase: B's events, A's read sizes
+  cutAt : Option Nat := none                 -- the connection is lost after this many bytes of the wire
 
 def parseStRest (tail : Tail) (rw : Bool) (trk : Option (List (Bytes × Bool))) (pre : Nat) : List String → Option StCase
   | "me" :: me :: "ev" :: n :: ts => do
@@ -106,8 +107,11 @@ def parseStRest (tail : Tail) (rw : Bool) (trk : Option (List (Bytes × Bool))) 
       let k ← k.toNat?
       let (rev, ts) ← parseEvents k ts
       let (rr, _) ← parseSizes "rr" ts
-      pure ⟨tail, rw, trk, pre, me, evs, ch, rd, some (rev, rr)⟩
-    | _ => pure ⟨tail, rw, trk, pre, me, evs, ch, rd, none⟩
+      pure ⟨tail, rw, trk, pre, me, evs, ch, rd, some (rev, rr), none⟩
+    | ["cut", k] => do
+      let k ← k.toNat?
+      pure ⟨tail, rw, trk, pre, me, evs, ch, rd, none, some k⟩
+    | _ => pure ⟨tail, rw, trk, pre, me, evs, ch, rd, none, none⟩
   | _ => none
 
 /-- `tk nil | tk <n> (<keyhex> <a|c>)*n`, then `pre <m>` (the receiving stream is created only after the
@@ -363,7 +367,11 @@ def runModel (ts : List String) : String :=
     match parseSt rest with
     | some c =>
       match c.rv with
-      | none => stObsStr c.me c.evs (modelSt c)
+      | none =>
+        match c.cutAt with
+        | none => stObsStr c.me c.evs (modelSt c)
+        | some k => stObsStr c.me c.evs
+            (runStreamCut (trackerOf c.trk) c.me c.evs (cutWire c.chunks) c.tail c.rw c.reads k)
       | some (rev, rr) =>
         let o := runDuplex (trackerOf c.trk) c.me c.evs (cutWire c.chunks) c.tail c.rw c.reads rev rr
         stObsStr c.me c.evs o.fwd ++ " rv " ++ stObsStr c.me rev o.rev
@@ -401,7 +409,10 @@ def runHolds (caseToks obsToks : List String) : String :=
       match c.rv with
       | none =>
         match parseStObs (refStream c.me c.evs) obsToks with
-        | some o => boolStr (holdsStream c.me c.evs c.tail c.reads o)
+        | some o =>
+          match c.cutAt with
+          | none => boolStr (holdsStream c.me c.evs c.tail c.reads o)
+          | some _ => boolStr (holdsCut c.me c.evs c.reads o)
         | none => "false"
       | some (rev, rr) =>
         match parseStObs (refStream c.me c.evs) (obsToks.takeWhile (· != "rv")),
